@@ -340,6 +340,27 @@ fn library() -> Lib {
             ),
         ),
     )));
+    // one type parameter is fixed by an argument, the other occurs only in the result type (the expected type of the
+    // call fixes it): every (T, E) pair is its own instance (added after a seeded change that dropped result-only
+    // parameters from the substitution once an argument had bound another one)
+    let res_te = Ty::Enum("Res".into(), vec![tp("T"), tp("E")]);
+    items.push(Item::Fn(fnd("okg", &[("T", &[]), ("E", &[])], vec![("x", t.clone())], res_te.clone(), blk(vec![], Expr::Constr { enum_name: "Res".into(), variant: "Okv".into(), ty: res_te.clone(), args: vec![var("x")], qualified: true }))));
+    items.push(Item::Fn(fnd("errg", &[("T", &[]), ("E", &[])], vec![("e", tp("E"))], res_te.clone(), blk(vec![], Expr::Constr { enum_name: "Res".into(), variant: "Errv".into(), ty: res_te.clone(), args: vec![var("e")], qualified: true }))));
+    items.push(Item::Fn(fnd(
+        "tagg",
+        &[("T", &[]), ("U", &[])],
+        vec![("x", t.clone())],
+        Ty::Tuple(vec![t.clone(), opt(u.clone())]),
+        blk(vec![], Expr::Tuple(vec![var("x"), Expr::Constr { enum_name: "Opt".into(), variant: "Non".into(), ty: opt(u.clone()), args: vec![], qualified: true }])),
+    )));
+    // the same through a struct: B only in the result
+    items.push(Item::Fn(fnd(
+        "halfpr",
+        &[("A", &[]), ("B", &[])],
+        vec![("a", tp("A"))],
+        Ty::Tuple(vec![tp("A"), opt(Ty::Struct("Pr".into(), vec![tp("A"), tp("B")]))]),
+        blk(vec![], Expr::Tuple(vec![var("a"), Expr::Constr { enum_name: "Opt".into(), variant: "Non".into(), ty: opt(Ty::Struct("Pr".into(), vec![tp("A"), tp("B")])), args: vec![], qualified: true }])),
+    )));
     // monomorphic unary functions used as callbacks
     items.push(Item::Fn(fnd("i_to_s", &[], vec![("x", I32)], Ty::Str, blk(vec![], bin(BinOp::Add, s("#"), bi("int32_to_string", vec![var("x")]))))));
     items.push(Item::Fn(fnd("i_to_b", &[], vec![("x", I32)], Ty::Bool, blk(vec![], bin(BinOp::Gt, var("x"), i(2))))));
@@ -407,7 +428,7 @@ fn gen_calls(g: &mut Gen, n: usize) -> Vec<Call> {
         let t = g.rng.pick_ref(&pool).clone();
         let u = g.rng.pick_ref(&pool).clone();
         let val = |g: &mut Gen, ty: &Ty| g.gen_expr(ty, 1, &[]);
-        let which = g.rng.below(33);
+        let which = g.rng.below(39);
         let c = match which {
             0 => Call { name: "idg", targs: vec![("T".into(), t.clone())], args: vec![val(g, &t)], ret: t.clone() },
             1 => Call { name: "pairg", targs: vec![("T".into(), t.clone()), ("U".into(), u.clone())], args: vec![val(g, &t), val(g, &u)], ret: Ty::Tuple(vec![t.clone(), u.clone()]) },
@@ -459,6 +480,10 @@ fn gen_calls(g: &mut Gen, n: usize) -> Vec<Call> {
             30 => Call { name: "firstb", targs: vec![("B".into(), t.clone())], args: vec![val(g, &Ty::Struct("Pr".into(), vec![t.clone(), I32]))], ret: t.clone() },
             31 => Call { name: "flipba", targs: vec![("B".into(), t.clone()), ("A".into(), u.clone())], args: vec![val(g, &Ty::Struct("Pr".into(), vec![t.clone(), u.clone()]))], ret: Ty::Struct("Pr".into(), vec![u.clone(), t.clone()]) },
             32 => Call { name: "idfirstb", targs: vec![("B".into(), t.clone())], args: vec![val(g, &Ty::Struct("Pr".into(), vec![t.clone(), Ty::Str]))], ret: t.clone() },
+            33 | 34 => Call { name: "okg", targs: vec![("T".into(), t.clone()), ("E".into(), u.clone())], args: vec![val(g, &t)], ret: Ty::Enum("Res".into(), vec![t.clone(), u.clone()]) },
+            35 | 36 => Call { name: "errg", targs: vec![("T".into(), t.clone()), ("E".into(), u.clone())], args: vec![val(g, &u)], ret: Ty::Enum("Res".into(), vec![t.clone(), u.clone()]) },
+            37 => Call { name: "tagg", targs: vec![("T".into(), t.clone()), ("U".into(), u.clone())], args: vec![val(g, &t)], ret: Ty::Tuple(vec![t.clone(), opt(u.clone())]) },
+            38 => Call { name: "halfpr", targs: vec![("A".into(), t.clone()), ("B".into(), u.clone())], args: vec![val(g, &t)], ret: Ty::Tuple(vec![t.clone(), opt(Ty::Struct("Pr".into(), vec![t.clone(), u.clone()]))]) },
             19 | 20 => Call { name: "unwrg", targs: vec![("T".into(), t.clone())], args: vec![Expr::Call { name: "mkwrg".into(), targs: vec![("T".into(), t.clone())], args: vec![val(g, &t)] }], ret: t.clone() },
             _ => {
                 let a = g.rng.pick_ref(&showable).clone();
@@ -542,6 +567,65 @@ fn mono_monitor(case: &mut Case, label: &str, src: &str, used: &BTreeMap<&'stati
     }
 }
 
+/// Generic (and, as controls, plain) types that contain their own instance behind an indirection - Vec, Ref, a tuple or
+/// array inside a Vec, a function type, a generic enum, mutual recursion, swapped parameters - each built and observed at
+/// two instantiations: (name, source, expected stdout). Type monomorphisation has to terminate on them and give every
+/// instantiation its own type (added after a seeded change that memoised struct instances too late; C04 feeds the
+/// same programs to its crash monitor).
+pub fn recursive_type_programs() -> Vec<(String, String, String)> {
+    let mut out: Vec<(String, String, String)> = Vec::new();
+    // (name, definitions, element type text E(T) of the children vector, expression that wraps a child `k`, count expression)
+    let shapes: [(&str, &str, &str, &str); 6] = [
+        ("vec", "struct Rose[T] { value: T, kids: Vec[Rose[T]] }\n", "Rose[T]", "k"),
+        ("vec-of-tuple", "struct Rose[T] { value: T, kids: Vec[(Rose[T], int32)] }\n", "(Rose[T], int32)", "(k, 5)"),
+        ("vec-of-array", "struct Rose[T] { value: T, kids: Vec[[Rose[T]; 1]] }\n", "[Rose[T]; 1]", "[k]"),
+        ("vec-of-ref", "struct Rose[T] { value: T, kids: Vec[Ref[Rose[T]]] }\n", "Ref[Rose[T]]", "ref(k)"),
+        ("vec-of-generic-enum", "enum Opt[T] { Som(T), Non }\nstruct Rose[T] { value: T, kids: Vec[Opt[Rose[T]]] }\n", "Opt[Rose[T]]", "Opt::Som(k)"),
+        ("vec-of-generic-struct", "struct Bx[A] { v: A }\nstruct Rose[T] { value: T, kids: Vec[Bx[Rose[T]]] }\n", "Bx[Rose[T]]", "Bx { v: k }"),
+    ];
+    for (name, defs, elem, wrap) in shapes {
+        let at = |t: &str| elem.replace("[T]", &format!("[{}]", t));
+        let src = format!(
+            "{defs}fn count[T](r: Rose[T]) -> int32 {{ 1 + vec_len(r.kids) }}\nfn main() -> unit {{\n    let k: Rose[int32] = Rose {{ value: 1, kids: vec_new() }};\n    let ks: Vec[{ei}] = vec_push(vec_new(), {wrap});\n    let root: Rose[int32] = Rose {{ value: 2, kids: ks }};\n    let _ = string_println(int32_to_string(count(root)) + \":\" + int32_to_string(root.value));\n    let k: Rose[string] = Rose {{ value: \"a\", kids: vec_new() }};\n    let ks: Vec[{es}] = vec_push(vec_push(vec_new(), {wrap}), {wrap});\n    let sroot: Rose[string] = Rose {{ value: \"b\", kids: ks }};\n    let _ = string_println(int32_to_string(count(sroot)) + \":\" + sroot.value);\n    ()\n}}\n",
+            defs = defs,
+            ei = at("int32"),
+            es = at("string"),
+            wrap = wrap
+        );
+        out.push((format!("struct-through-{}", name), src, "2:2\n3:b\n".to_string()));
+    }
+    // two parameters, one of them swapped on the way down (finitely many instances: Sw[int32, string], Sw[string, int32])
+    out.push((
+        "struct-swapped-parameters".into(),
+        "struct Sw[A, B] { a: A, kids: Vec[Sw[B, A]] }\nfn depth[A, B](s: Sw[A, B]) -> int32 { 1 + vec_len(s.kids) }\nfn main() -> unit {\n    let inner: Sw[string, int32] = Sw { a: \"in\", kids: vec_new() };\n    let outer: Sw[int32, string] = Sw { a: 7, kids: vec_push(vec_new(), inner) };\n    let _ = string_println(int32_to_string(depth(outer)) + \":\" + int32_to_string(outer.a));\n    let lone: Sw[bool, bool] = Sw { a: true, kids: vec_new() };\n    let _ = string_println(int32_to_string(depth(lone)) + \":\" + bool_to_string(lone.a));\n    ()\n}\n".into(),
+        "2:7\n1:true\n".into(),
+    ));
+    // mutual recursion between two generic structs
+    out.push((
+        "struct-mutual".into(),
+        "struct Ev[T] { v: T, odds: Vec[Od[T]] }\nstruct Od[T] { evens: Vec[Ev[T]] }\nfn width[T](e: Ev[T]) -> int32 { vec_len(e.odds) }\nfn main() -> unit {\n    let o: Od[int32] = Od { evens: vec_new() };\n    let e: Ev[int32] = Ev { v: 3, odds: vec_push(vec_new(), o) };\n    let _ = string_println(int32_to_string(width(e)) + \":\" + int32_to_string(e.v));\n    let es: Ev[string] = Ev { v: \"s\", odds: vec_new() };\n    let _ = string_println(int32_to_string(width(es)) + \":\" + es.v);\n    ()\n}\n".into(),
+        "1:3\n0:s\n".into(),
+    ));
+    // generic enum recursive through Vec, and directly
+    out.push((
+        "enum-through-vec".into(),
+        "enum Tree[T] { Leaf(T), Node(Vec[Tree[T]]) }\nfn size[T](t: Tree[T]) -> int32 { match t { Tree::Leaf(_) => 1, Tree::Node(ks) => 1 + vec_len(ks) } }\nfn main() -> unit {\n    let l: Tree[int32] = Tree::Leaf(4);\n    let n: Tree[int32] = Tree::Node(vec_push(vec_push(vec_new(), l), Tree::Leaf(5)));\n    let _ = string_println(int32_to_string(size(n)));\n    let s: Tree[string] = Tree::Leaf(\"x\");\n    let _ = string_println(int32_to_string(size(s)));\n    ()\n}\n".into(),
+        "3\n1\n".into(),
+    ));
+    out.push((
+        "enum-direct".into(),
+        "enum Lst[T] { Nil, Cons(T, Lst[T]) }\nfn len[T](l: Lst[T]) -> int32 { match l { Lst::Nil => 0, Lst::Cons(_, t) => 1 + len(t) } }\nfn main() -> unit {\n    let a: Lst[int32] = Lst::Cons(1, Lst::Cons(2, Lst::Nil));\n    let _ = string_println(int32_to_string(len(a)));\n    let b: Lst[bool] = Lst::Cons(true, Lst::Nil);\n    let _ = string_println(int32_to_string(len(b)));\n    ()\n}\n".into(),
+        "2\n1\n".into(),
+    ));
+    // control: the same shape without type parameters
+    out.push((
+        "plain-struct-through-vec".into(),
+        "struct Nd { v: int32, kids: Vec[Nd] }\nfn count(r: Nd) -> int32 { 1 + vec_len(r.kids) }\nfn main() -> unit {\n    let k: Nd = Nd { v: 1, kids: vec_new() };\n    let root: Nd = Nd { v: 2, kids: vec_push(vec_new(), k) };\n    let _ = string_println(int32_to_string(count(root)) + \":\" + int32_to_string(root.v));\n    ()\n}\n".into(),
+        "2:2\n".into(),
+    ));
+    out
+}
+
 fn run(ctx: &mut Ctx) {
     let tier = ctx.tier;
     let seed = ctx.seed;
@@ -550,7 +634,7 @@ fn run(ctx: &mut Ctx) {
         return;
     }
     let opts = DiffOpts { prop: "C07", vet_is_violation: true, budget: 1_000_000, print: PrintOpts::default() };
-    let n = tier.pick(120u64, 4_000u64) / ctx.nshards as u64 + 1;
+    let n = tier.pickn(120u64, 4_000u64) / ctx.nshards as u64 + 1;
     for j in 0..n {
         let mut rng = Rng::keyed(seed, "c07-lib", ctx.shard as u64, j);
         let (prog, used) = build(&mut rng, 14);
@@ -570,7 +654,7 @@ fn run(ctx: &mut Ctx) {
         });
     }
     // random generic-heavy programs through the general generator
-    let m = tier.pick(150u64, 8_000u64) / ctx.nshards as u64 + 1;
+    let m = tier.pickn(150u64, 8_000u64) / ctx.nshards as u64 + 1;
     let opts2 = DiffOpts { prop: "C07", vet_is_violation: false, budget: 400_000, print: PrintOpts::default() };
     for j in 0..m {
         let mut rng = Rng::keyed(seed, "c07-gen", ctx.shard as u64, j);
@@ -629,6 +713,25 @@ fn run(ctx: &mut Ctx) {
                 } else {
                     c.violation(format!("C07:instance-differs:{}", label), format!("{} prints {:?} ({:?} {}), expected {:?}", label, out, term, util::truncate(&stderr, 80), expected), json!({"label": label, "source": src, "stdout": out}));
                 }
+            }
+        });
+    }
+    for (i, (name, src, expected)) in recursive_type_programs().into_iter().enumerate() {
+        if !ctx.mine(82_000 + i as u64) {
+            continue;
+        }
+        let label = format!("recursive-types/{}", name);
+        ctx.case(&label.clone(), |c| {
+            match crate::exec::run_source(c, "C07", &label, &src, 2_000_000) {
+                Some((out, term, stderr)) => {
+                    if out == expected && matches!(term, crate::goexec::Term::Ok) {
+                        c.count("recursive_type_programs_agree", 1);
+                        c.nontrivial(hash_str(&src));
+                    } else {
+                        c.violation(format!("C07:instance-differs:{}", label), format!("{} prints {:?} ({:?} {}), expected {:?}", label, out, term, util::truncate(&stderr, 80), expected), json!({"label": label, "source": src}));
+                    }
+                }
+                None => c.count("recursive_type_programs_not_run", 1),
             }
         });
     }
